@@ -346,7 +346,9 @@ func replayFile(t *testing.T, prop, path string) {
 		fmt.Println(`REPLAY-RESULT {"reproduced":false,"identical_trace":false,"diverged":"","signature":"work-in-proportion/spin","outcome":"finished"}`)
 		return
 	}
-	res := RunScenario(t, rf.Scenario, &simrt.Replay{Tape: rf.Tape, Sel: rf.Selects, Strict: true}, true)
+	// VERIF_LENIENT=1 (debugging aid, never used by the checks): follow the tape as far as it fits and
+	// continue under the default policy - for looking at an old replay file after the code has changed
+	res := RunScenario(t, rf.Scenario, &simrt.Replay{Tape: rf.Tape, Sel: rf.Selects, Strict: os.Getenv("VERIF_LENIENT") == ""}, true)
 	if os.Getenv("VERIF_DUMP") != "" {
 		for _, l := range excerpt(res.Evs, "", 100000) {
 			fmt.Println(l)
